@@ -55,9 +55,10 @@ type Stats struct {
 // Found is a violation with the schedule that produced it.
 type Found struct {
 	Violation
-	Scenario string   `json:"scenario"`
-	Picks    []int    `json:"picks"`
-	Trace    []string `json:"trace"`
+	Scenario string          `json:"scenario"`
+	Picks    []int           `json:"picks,omitempty"`
+	Trace    []string        `json:"trace,omitempty"`
+	Input    json.RawMessage `json:"input,omitempty"`
 }
 
 // Explorer is a stateless depth-first explorer with replay, a deviation budget
@@ -312,11 +313,12 @@ func WriteShardResult(r *ShardResult) error {
 
 // ReplayFile is the on-disk form of a violating schedule.
 type ReplayFile struct {
-	Property string   `json:"property"`
-	Scenario string   `json:"scenario"`
-	Picks    []int    `json:"picks"`
-	Msg      string   `json:"msg"`
-	Trace    []string `json:"trace,omitempty"`
+	Property string          `json:"property"`
+	Scenario string          `json:"scenario"`
+	Picks    []int           `json:"picks"`
+	Input    json.RawMessage `json:"input,omitempty"`
+	Msg      string          `json:"msg"`
+	Trace    []string        `json:"trace,omitempty"`
 }
 
 func LoadReplay(path string) (*ReplayFile, error) {
